@@ -2323,7 +2323,13 @@ class PyCdlib:
             # explicit checks anticipated (a length or an extent that points
             # outside of the data that is there, a number that does not fit
             # where it has to go, ...).  Whatever it is, the ISO is not valid.
+            self._initialize()
             raise pycdlibexception.PyCdlibInvalidISO('Invalid ISO: %s' % (str(err)))
+        except Exception:
+            # What was parsed before the ISO was refused must not get in the
+            # way of the next open() or new() on this object.
+            self._initialize()
+            raise
 
     def _parse_opened_fp(self):
         # type: () -> None
